@@ -9,7 +9,7 @@ def run(tier, seed):
     tasks = PC.make_tasks(tier, seed, ORACLES, layouts=["lf", "crlf", "comments"], layout_depth=2, post="c18suffix",
                           base_layout="mixed", include_noreq=True)
     results = pool.run_tasks("checks.parser_common:task", tasks)
-    results += pool.run_tasks("checks.parser_common:valid_task", PC.valid_tasks(tier, seed, ORACLES, post="c18suffix+reuse", base_layout="lf", edit_layouts=(["mixed"] if tier == "quick" else ["mixed", "crlf", "comments"])))
+    results += pool.run_tasks("checks.parser_common:valid_task", PC.valid_tasks(tier, seed, ORACLES, post="c18suffix+reuse", base_layout="leadlf", bare_edits=True, edit_layouts=(["mixed"] if tier == "quick" else ["mixed", "lf", "crlf", "comments"])))
     cov, viols, harness = PC.assemble(results)
     cov["rule"] += (" C18: base layout 'mixed' (cycling blank, LF, inline bracket comment with multi-byte text, CRLF, hash comment, "
                     "tab, blank line) so tokens land on many (line, byte column) positions; every rejected word is compared with the "
